@@ -24,6 +24,9 @@ func init() {
 }
 
 func runC01(c *Ctx) {
+	c10LengthWord(c, c.Root(), "C01.body")
+	c15DecodeResult(c, c.Root(), "C01.body")
+
 	m := c.Root()
 	c01Gate(c, m)
 	c01Tables(c, m)
